@@ -172,7 +172,7 @@ static void body(void) {
         for (size_t i = 0; i < ns; i++) {
             ZSTD_Sequence s = g_seq[i]; size_t ms = pos + s.litLength; pos = ms + s.matchLength;
             if (s.offset == 0 && s.matchLength == 0) {
-                if (i % step) continue;
+                /* every delimiter is tried (there are few) */
                 /* delimiter corruptions (explicit mode): removed / given a match length / duplicated literals */
                 for (int k = 0; k < 3; k++) {
                     memcpy(g_seq2, g_seq, sizeof(ZSTD_Sequence) * ns); size_t ns2 = ns;
@@ -194,7 +194,7 @@ static void body(void) {
                 { s.offset, 2, s.litLength, 1, "match length 2" }, { s.offset, 1, s.litLength, 1, "match length 1" },
                 { s.offset, minMatch >= 4 ? 3u : 2u, s.litLength, 1, "match length below the configured minimum (3 with minMatch >= 4)" },
                 { s.offset, s.matchLength, s.litLength + 1, delim ? 1 : 0, "literal length + 1 (block lengths disagree with the source)" },
-                { 0, s.matchLength, s.litLength, 0, "offset 0 with a match length" } };
+                { 0, s.matchLength, s.litLength, delim ? 1 : 0, "offset 0 with a match length (a malformed block delimiter in explicit mode)" } };
             for (int k = 0; k < 8; k++) {
                 memcpy(g_seq2, g_seq, sizeof(ZSTD_Sequence) * ns);
                 g_seq2[i].offset = M[k].off; g_seq2[i].matchLength = M[k].ml; g_seq2[i].litLength = M[k].ll;
